@@ -4,6 +4,7 @@ weight; the rule selected per (element type, matrix type) is rich enough.
 Data (`Gen.C07.*`) is regenerated from /repo/EasyFEA/FEM/_gauss.py on every run
 (the leggauss values are the exact binary64 numbers numpy returns on this machine).
 -/
+import EasyFEAVerif.Core.RefIntegral
 import EasyFEAVerif.Core.RankSound
 import EasyFEAVerif.Model.Factory
 import EasyFEAVerif.Gen.C06.All
@@ -44,11 +45,21 @@ theorem weights_sum : ∀ r ∈ allRules,
 /-- Every monomial of the rule's polynomial space is integrated exactly (to within the
 catalogue's tolerance): Σ_p w_p ξ_p^α = ∫_ref ξ^α. By linearity the same holds for every
 polynomial of the space. `refMoment` is the closed-form moment of the reference
-element (see `segment_moment_is_integral` for the segment; the simplex formula
-α!β!γ!/(|α|+d)! is part of the trusted base). -/
+element; `Core/RefIntegral.lean` proves that it IS the integral of the monomial over the
+reference element for the six shapes (`exact_integral` below restates the theorem with
+Mathlib's integrals; the simplex formula α!β!γ!/(|α|+d)! is no longer assumed). -/
 theorem exact : ∀ r ∈ allRules, ∀ α ∈ Rule.mons r.2.1.shape r.2.2.1 r.2.2.2.1,
     |r.2.1.quadR α - (r.2.1.shape.refMoment α : ℝ)| ≤ ((r.2.2.2.2 : Rat) : ℝ) :=
   fun r hr _ hα => Rule.exact_real (allRules_check r hr) hα
+
+/-- **exactness against the integral itself**: for every rule of the catalogue and every monomial of its space,
+`|Σ_p w_p ξ_p^α − ∫_ref ξ^α| ≤ eps` where the integral is Mathlib's (iterated interval integrals over `[-1, 1]^d`, the unit
+triangle, the unit tetrahedron, the prism) -/
+theorem exact_integral : ∀ r ∈ allRules, ∀ α ∈ Rule.mons r.2.1.shape r.2.2.1 r.2.2.2.1,
+    |r.2.1.quadR α - RefIntegral.refIntegral r.2.1.shape α| ≤ ((r.2.2.2.2 : Rat) : ℝ) := by
+  intro r hr α hα
+  rw [← RefIntegral.refMoment_eq_integral]
+  exact exact r hr α hα
 
 /-- non-vacuity: the monomial spaces are the expected ones -/
 example : ((Rule.mons .triangle 6 0).length, (Rule.mons .hexahedron 5 0).length,
